@@ -76,6 +76,12 @@ def param_alternatives(ctx, h0, name, kind):
         return [(R(c.null), [])] + param_alternatives(ctx, h0, name, 'key')
     if kind.startswith('optis:'):
         return [(R(c.null), [])] + param_alternatives(ctx, h0, name, kind[3:])
+    if kind == 'optpdict':
+        # None, or a dict with str keys (any number of entries): key set and values as arrays over the key sort; '.NS' not among the keys
+        from z3 import ArraySort
+        ph = Const(name + '_has', ArraySort(c.Key, BoolSort())); pv = Const(name + '_val', ArraySort(c.Key, c.Ref))
+        kq = Const('kq_pd', c.Key)
+        return [(R(c.null), []), (('pdict', ph, pv), [Not(ph[c.KEY_NS]), ForAll([kq], Implies(ph[kq], h0['alloc'][pv[kq]]), patterns=[pv[kq]])])]
     if kind == 'str':
         return [(('str', '?'), [])]
     if kind == 'iter':
